@@ -15,6 +15,7 @@ import (
 func init() {
 	rt.Register("C11", jobC11)
 	rt.Register("C12", jobC12)
+	rt.Register("C10x", func(c *rt.Ctx) { c12Strings(c, "C10") })
 }
 
 func pow2(n uint) *big.Int { return new(big.Int).Lsh(big.NewInt(1), n) }
@@ -265,7 +266,7 @@ func jobC11(c *rt.Ctx) {
 }
 
 func jobC12(c *rt.Ctx) {
-	c.Require("seed", "pub/decodable", "pub/undecodable", "pub/y=1", "pub/noncanonical")
+	c.Require("seed")
 	n := 64
 	if c.Thorough() {
 		n = 4096
@@ -310,7 +311,14 @@ func jobC12(c *rt.Ctx) {
 			c.Sample(map[string]interface{}{"seed": ref.Hex(seed), "x25519_private": ref.Hex(xpriv), "x25519_public": ref.Hex(wantPub)})
 		}
 	}
-	// public-key strings: decode space
+	c12Strings(c, "C12")
+}
+
+// c12Strings: the key conversion accepts exactly the strings the lenient decoding accepts and
+// returns the canonical (1+y)/(1-y) (used by C12, and by C10 for the "accepted as a point by the
+// key conversion" clause).
+func c12Strings(c *rt.Ctx, prop string) {
+	c.Require("pub/decodable", "pub/undecodable", "pub/y=1", "pub/noncanonical")
 	var strs [][]byte
 	lim := 1 << 14
 	if c.Thorough() {
@@ -383,7 +391,7 @@ func jobC12(c *rt.Ctx) {
 			bad = bad || got != nil
 		}
 		if bad {
-			c.Violation(fmt.Sprintf("C12 public conversion decodable=%v noncanonical=%v", dec, nc), fmt.Sprintf("EdPublicKeyToX25519(%x) = %x, %v; model: %x, decodable=%v", b, got, ok, want, dec),
+			c.Violation(fmt.Sprintf("%s public conversion decodable=%v noncanonical=%v", prop, dec, nc), fmt.Sprintf("EdPublicKeyToX25519(%x) = %x, %v; model: %x, decodable=%v", b, got, ok, want, dec),
 				map[string]interface{}{"key": ref.Hex(b), "expected": ref.Hex(want), "observed": ref.Hex(got), "ok": ok, "decodable": dec})
 		}
 	}
